@@ -1,11 +1,13 @@
 """C04 — flush barrier (safety skeleton): flush before wake, accounting fed by the drain, dead queue never panics."""
 from mq.util import *
-from mq.prov import Prov
+from mq.prov import Prov, place_fields, has_deref
 from rules.c05 import shutdown_summary, is_pop, is_stream_flush, find_thread_entries
 
 EXPL = ("R04.1 every clear/drop of the waiting-waker vector is dominated by the stream flush (through the flush closure, "
         "which must flush on every path), and at thread exit the tracker is dropped only after the shutdown routine's final "
-        "flush; R04.3 the tracker is fed the result of the immediately preceding drain and a ring-derived bound; R04.5 a flush "
+        "flush; R04.3 the tracker is fed the result of the immediately preceding drain and a ring-derived bound; R04.4 inside the tracker the entries-before-wake "
+        "counter is (i) decremented by exactly the entry-count parameter, (ii) set to a constant only where the waiting wakers are released, "
+        "(iii) armed with the pure ring bound on every path from the collection of new signals to the exit; R04.5 a flush "
         "request on a dead queue neither unwraps the send result nor the awaited receiver, and the signal type owns the oneshot "
         "sender. Not decided: the happens-before relation across the three threads and bounded-progress liveness.")
 BG = "metrique_writer"
@@ -156,6 +158,93 @@ def run(ctx):
                 ctx.check(bool(calls_once) and all(any(dominates(tb, r.bb, x.bb, tdom) for r in recvs) for x in calls_once), "R04.3", fnkey(tb) + "#length-read-after-collection", loc(tb),
                           "the queue length used as the bound is read before the new flush requests are collected")
     ctx.floor("R04.1", "bindings of the flush action at tracker call sites", nbind, 1)
+
+    # ------------------------------------------------------------------ R04.4 the entries-before-wake counter protocol inside the tracker
+    n44 = 0
+    wvf = {fn for _, fn in wv}
+    for bdef, (tb, params) in tracker_bodies.items():
+        pr = Prov(tb)
+        key = fnkey(tb)
+        bound_calls = {x.bb for x in tb.calls() if (x.is_trait_method("FnOnce", "call_once") or x.is_trait_method("FnMut", "call_mut") or x.is_trait_method("Fn", "call"))
+                       and not x.dest.get("p") and tb.local_ty(x.dest["l"]) == "usize"}
+        stores = {}      # field -> [(bb, origins)]
+        for i in tb.live_blocks():
+            for st in tb.stmts(i):
+                if st["k"] != "assign":
+                    continue
+                lhs = st["lhs"]
+                fs = place_fields(lhs)
+                if not (has_deref(lhs) and len(fs) == 1 and any(x[0] == "arg" and x[1] == 1 for x in pr.local(lhs["l"]))):
+                    continue
+                if st["rv"]["k"] != "use":
+                    stores.setdefault(fs[0], []).append((i, {("op", st["rv"]["k"])}))
+                else:
+                    stores.setdefault(fs[0], []).append((i, pr.operand(st["rv"]["op"])))
+        counters = [f for f, ss in stores.items() if any(any(x[0] == "call" and x[1] in bound_calls for x in o) for _, o in ss)]
+        ctx.check(len(counters) == 1, "R04.4", key + "#counter-slot", loc(tb),
+                  "could not identify the entries-before-wake counter (a tracker field storing the result of the bound closure): %s" % counters,
+                  "counter field: %s; bound calls bb%s" % (counters, sorted(bound_calls)))
+        if len(counters) != 1:
+            continue
+        cf = counters[0]
+        releases = {c.bb for b_, c in trackers if b_ is tb}
+        pushes = [x for x in tb.calls() if x.is_in("alloc::vec", "Vec::push", "Vec::extend", "Vec::append") and x.args and
+                  any(y[0] == "arg" and y[1] == 1 and y[2] and y[2][-1] in wvf for y in pr.operand(x.args[0]))]
+        ctx.floor("R04.4", "sites collecting new flush signals into the waiting vector", len(pushes), 1)
+        rets = set(tb.return_blocks())
+        for bb_, o in stores[cf]:
+            n44 += 1
+            consts = [x for x in o if x[0] == "const"]
+            from_bound = [x for x in o if x[0] == "call" and x[1] in bound_calls]
+            if consts:
+                ok = tb.must_pass(releases, start=bb_) if releases else False
+                ctx.check(ok and not from_bound, "R04.4", key + "#constant-counter-only-with-release@%s" % ("+".join(sorted(str(x[1][1]) for x in consts))), loc(tb, bb_),
+                          "the entries-before-wake counter is set to a constant on a path that does not release the waiting wakers right there: flush requests "
+                          "that were just collected would be woken by the next call although the entries appended before them are still queued",
+                          "constant store is followed by the release of the wakers on every path")
+            elif from_bound:
+                ctx.check(all(x[0] in ("call", "via") and (x[0] == "via" or x[1] in bound_calls) for x in o), "R04.4", key + "#bound-store-pure", loc(tb, bb_),
+                          "the value stored as entries-before-wake mixes the ring bound with other sources: %s" % sorted(map(str, o)),
+                          "stored value is exactly the bound closure's result")
+            else:
+                # the decrement: counter (-) processed entries, where the subtrahend is the entry-count parameter unchanged
+                subs = [x for x in o if x[0] == "call" and _cs_at(tb, x[1]).name in ("saturating_sub", "checked_sub", "wrapping_sub")]
+                okd = False
+                for x in subs:
+                    c = _cs_at(tb, x[1])
+                    a0, a1 = pr.operand(c.args[0]), pr.operand(c.args[1])
+                    okd = (any(y[0] == "arg" and y[1] == 1 and y[2] and y[2][-1] == cf for y in a0) and
+                           all(y[0] == "arg" and y[1] > 1 and not y[2] and tb.local_ty(y[1]) == "usize" for y in a1) and c.name == "saturating_sub")
+                ctx.check(okd, "R04.4", key + "#counter-decrement-by-processed-entries", loc(tb, bb_),
+                          "the counter update is not `counter.saturating_sub(<entry-count parameter>)`: origins %s" % sorted(map(str, o))[:5],
+                          "counter decremented by the entry-count parameter, saturating")
+        # after new signals were collected the counter is armed with the bound on every path to the exit
+        bound_stores = {bb_ for bb_, o in stores[cf] if o and all(x[0] == "via" or (x[0] == "call" and x[1] in bound_calls) for x in o) and any(x[0] == "call" for x in o)}
+        empties = [x for x in tb.calls() if x.is_in("alloc::vec", "Vec::is_empty") and x.args and
+                   any(y[0] == "arg" and y[1] == 1 and y[2] and y[2][-1] in wvf for y in pr.operand(x.args[0]))]
+        for p in pushes:
+            after = tb.reachable_after(p.bb)
+            infeasible = set()
+            if not (after & releases):
+                for e in empties:
+                    if e.bb in after:
+                        for sw, tg, oth in switch_on_call_result(tb, e):
+                            tt = tg.get(1, oth if 0 in tg else None)
+                            if tt is not None:
+                                infeasible.add((sw, tt))
+            seen, stk = {p.bb}, [p.bb]
+            while stk:
+                x = stk.pop()
+                for y in tb.succ(x):
+                    if y in seen or y in bound_stores or (x, y) in infeasible:
+                        continue
+                    seen.add(y)
+                    stk.append(y)
+            ctx.check(not (seen & rets), "R04.4", key + "#counter-armed-after-collection", loc(tb, p.bb),
+                      "after new flush signals are collected the call can return without arming the entries-before-wake counter with the ring bound: "
+                      "the next call would see a zero counter and wake them although the entries appended before them may still be queued",
+                      "every path from the collection to the exit stores the bound (bb%s)" % sorted(bound_stores))
+    ctx.floor("R04.4", "stores to the entries-before-wake counter", n44, 3)
 
     # thread exit: tracker dropped only after the shutdown routine
     for cs0, cb in find_thread_entries(F, BG):
